@@ -81,4 +81,6 @@ LnT == <<0, 726817, 1151978, 1453635, 1687618, 1878796, 2040435, 2180452, 230395
 (* SUM a_i (LnT[a_i] - m LnT[2]) in units of 2^-20 / 2^m: minus the entropy of p = a / 2^m *)
 PLnP(a, m) == SumSeq([x \in DOMAIN a |-> IF a[x] = 0 THEN 0 ELSE a[x] * (LnT[a[x]] - m * LnT[2])])
 PLnQ(a, b, m) == SumSeq([x \in DOMAIN a |-> IF a[x] = 0 THEN 0 ELSE a[x] * (LnT[b[x]] - m * LnT[2])])
+(* the same with q_i = b_i / 2^(m + bx_i) *)
+PLnQx(a, b, m, bx) == SumSeq([x \in DOMAIN a |-> IF a[x] = 0 THEN 0 ELSE a[x] * (LnT[b[x]] - (m + bx[x]) * LnT[2])])
 =============================================================================
